@@ -230,7 +230,28 @@ func FOLDUNFOLD_Pointers(h *rt.H) {
 			err = gotype.Fold(v, u)
 		}
 	}
-	switch h.Choose("shape", 0, 9) {
+	switch h.Choose("shape", 0, 11) {
+	case 10: // nil values in a map nested in a map: every entry under its own key
+		var out map[string]map[string]*int8
+		fu(map[string]map[string]*int8{"cpu": {"min": nil, "max": &x}, "net": {"min": nil}}, &out)
+		ok = len(out) == 2 && len(out["cpu"]) == 2 && len(out["net"]) == 1 && out["cpu"]["max"] != nil && out["cpu"]["min"] == nil && out["net"]["min"] == nil
+		if ok {
+			_, hasMin := out["cpu"]["min"]
+			ok = hasMin && *out["cpu"]["max"] == x
+		}
+	case 11:
+		var out struct {
+			M map[string]map[string]*ptIn
+			N int8
+		}
+		fu(struct {
+			M map[string]map[string]*ptIn
+			N int8
+		}{map[string]map[string]*ptIn{"a": {"n": nil}, "b": {"p": i1}}, y}, &out)
+		ok = len(out.M) == 2 && len(out.M["a"]) == 1 && len(out.M["b"]) == 1 && out.M["b"]["p"] != nil && out.N == y
+		if ok {
+			ok = out.M["b"]["p"].A == x
+		}
 	case 0:
 		var out map[string]*ptIn
 		fu(map[string]*ptIn{"a": i1, "b": i2}, &out)
